@@ -238,13 +238,26 @@ func genDispatch(repo, out string) error {
 		}
 		return true
 	})
-	keys := func(m map[string]bool) []string {
+	// a comparison `x <op> <integer literal>` as a Lean pair (op, literal); anything else as ("?", 0)
+	keys := func(m map[string]bool) string {
 		var l []string
 		for k := range m {
 			l = append(l, k)
 		}
 		sort.Strings(l)
-		return l
+		var items []string
+		for _, k := range l {
+			n := 0
+			for n < len(k) && strings.ContainsRune("<>=!", rune(k[n])) {
+				n++
+			}
+			if v, err := strconv.Atoi(k[n:]); err == nil {
+				items = append(items, "("+leanStr(k[:n])+", ("+strconv.Itoa(v)+" : Int))")
+			} else {
+				items = append(items, "("+leanStr("?")+", (0 : Int))")
+			}
+		}
+		return "[" + strings.Join(items, ", ") + "]"
 	}
 	src := "-- GENERATED by harness/c02/extract2.go (vh gen-tables) from io/utils/readtrees.go, cmd/root.go, io/fileutils/readln.go of the working tree; do not edit\n" +
 		"namespace Gotree.Gen.C02\n\n" +
@@ -259,8 +272,8 @@ func genDispatch(repo, out string) error {
 		"/-- default value of the --format flag -/\n" +
 		"def cmdFormatFlagDefault : String := " + leanStr(flagDefault) + "\n" +
 		"/-- ReadUntilSemiColon: comparisons `i <op> <literal>` guarding the scan back, comparisons `len(ln) <op> <literal>` -/\n" +
-		"def rusIndexGuards : List String := " + leanStrList(keys(idx)) + "\n" +
-		"def rusLenGuards : List String := " + leanStrList(keys(lens)) + "\n\n" +
+		"def rusIndexGuards : List (String × Int) := " + keys(idx) + "\n" +
+		"def rusLenGuards : List (String × Int) := " + keys(lens) + "\n\n" +
 		"end Gotree.Gen.C02\n"
 	_ = indexExprs
 	return os.WriteFile(filepath.Join(out, "C02Dispatch.lean"), []byte(src), 0644)
